@@ -385,7 +385,11 @@ func (env *Env) run(c *Case) *Result {
 	var wrI io.Writer = wr
 	var rdCloser *faultReaderCloser
 	var pty *ptyWriter
-	switch c.Faults.IOKind {
+	ioKind := c.Faults.IOKind
+	if runtime.GOARCH != "amd64" && (ioKind == 4 || ioKind == 9) {
+		ioKind-- // the anonymous memory file needs a raw system call number: elsewhere fall back to the *bytes.Reader variant
+	}
+	switch ioKind {
 	case 1:
 		rdI, wrI = faultReaderWT{rd}, recStringWriter{wr}
 	case 2:
@@ -396,7 +400,7 @@ func (env *Env) run(c *Case) *Result {
 		// holds a hostile tree); the document is what remains. 8: *bytes.Reader, 9: regular file
 		prefix := []byte("- ..\n  - ..\n    - skipped-section\n- /skipped\n  - a/b\n")
 		all := append(append([]byte{}, prefix...), c.Doc...)
-		if c.Faults.IOKind == 8 {
+		if ioKind == 8 {
 			br := bytes.NewReader(all)
 			br.Seek(int64(len(prefix)), io.SeekStart)
 			rdI = br
